@@ -540,6 +540,20 @@ func (vc *VC) typeFacts(v Val) string {
 	for i, l := range sh {
 		fs = append(fs, vc.leafFact(v.L[i], l))
 	}
+	if tup, ok := v.Typ.(*types.Tuple); ok {
+		// a multi-value result: the facts of each component (slice headers, interface pairs)
+		fs = nil
+		at := 0
+		for i := 0; i < tup.Len(); i++ {
+			n := len(vc.shape(tup.At(i).Type()))
+			if at+n > len(v.L) {
+				break
+			}
+			fs = append(fs, vc.typeFacts(Val{Typ: tup.At(i).Type(), L: v.L[at : at+n]}))
+			at += n
+		}
+		return and(fs...)
+	}
 	switch v.Typ.Underlying().(type) {
 	case *types.Slice:
 		// 0 <= off, 0 <= len <= cap, nil slice has base 0
